@@ -167,6 +167,10 @@ fn roundtrip(machine: ZXMachine, fresh_receiver: bool, paged: u8) {
         e.verif_cpu().regs.verif_set(&d);
         e.verif_cpu().halted = kani::any();
         e.verif_cpu().skip_interrupt = kani::any();
+        // possibly in the middle of a DD/FD prefix chain
+        let pf: u8 = kani::any();
+        kani::assume(pf == 0 || pf == 0xDD || pf == 0xFD || pf == 0xED);
+        e.verif_cpu().verif_set_active_prefix(pf);
         let dim: u8 = kani::any();
         kani::assume(dim < 3);
         e.verif_cpu().set_im(dim);
@@ -356,6 +360,9 @@ fn roundtrip_128k(fresh_receiver: bool) {
         e.verif_cpu().regs.verif_set(&d);
         e.verif_cpu().halted = kani::any();
         e.verif_cpu().skip_interrupt = kani::any();
+        let pf: u8 = kani::any();
+        kani::assume(pf == 0 || pf == 0xDD || pf == 0xFD || pf == 0xED);
+        e.verif_cpu().verif_set_active_prefix(pf);
         e.verif_ctl().set_border_color(0, any_color());
         let l2: u8 = kani::any();
         e.verif_ctl().write_7ffd(l2); // may lock paging
